@@ -325,8 +325,9 @@ def radixDigitsLSF (b : Nat) : Nat → Nat → List Nat
   | 0, _ => []
   | fuel + 1, n => if n > 0 then n % b :: radixDigitsLSF b fuel (n / b) else [n % b]
 
-/-- radix.jq:29-43 `to_radix($base)` for a non-negative integer and 2 ≤ base (base 1 does not
-    terminate in fq, base 0 divides by zero: not modelled → none); base > 64 is "base too large" -/
+/-- radix.jq `to_radix($base)` for a non-negative integer: `$base < 2` is the error "base too
+    small" (since /repo 1a4271bf; before, base 1 never terminated and base 0 divided by zero),
+    `$base > 64` is "base too large"; 0 is "0" -/
 def toRadix (b n : Nat) : Option (List Char) :=
   if b < 2 then none
   else if n = 0 then some ['0']
@@ -334,20 +335,33 @@ def toRadix (b n : Nat) : Option (List Char) :=
     some (((radixDigitsLSF b (n + 1) n).reverse.drop 1).map (fun d => radixTable.getD d '?'))
   else none
 
-/-- the `$table` object of radix.jq:17-27 -/
+/-- the `$table` object of radix.jq -/
 def radixVal (c : Char) : Option Nat := radixTable.idxOf? c
 
-/-- radix.jq:1-15 `from_radix($base)`: `split("") | reverse | map($table[.])`, then
-    `reduce .[] as $c ([1,0]; [.[0]*$base, .[1] + .[0]*$c])`; a character outside the table gives
-    null and `number * null` is a jq error.  QUIRK kept: digits are NOT checked against the base
-    ("9" | from_radix(2) = 9) and "" gives 0. -/
+/-- radix.jq `from_radix($base)` as repaired by /repo 1a4271bf: `split("") | reverse | map(…)` where
+    every character must be in the table AND its digit must be below `$base` (else error
+    "invalid char"), then `reduce .[] as $c ([1,0]; [.[0]*$base, .[1] + .[0]*$c])` -/
 def fromRadixLSF (b : Nat) : List Char → Nat → Nat → Option Nat
   | [], _, ans => some ans
   | c :: cs, pow, ans =>
     match radixVal c with
     | none => none
-    | some d => fromRadixLSF b cs (pow * b) (ans + pow * d)
+    | some d => if b ≤ d then none else fromRadixLSF b cs (pow * b) (ans + pow * d)
 
-def fromRadix (b : Nat) (s : List Char) : Option Nat := fromRadixLSF b s.reverse 1 0
+/-- … and the empty string is an error ("cannot from_radix convert empty string") -/
+def fromRadix (b : Nat) (s : List Char) : Option Nat :=
+  if s.isEmpty then none else fromRadixLSF b s.reverse 1 0
+
+/-! REGRESSION MODEL (documentation only, not used by the driver): from_radix as it was before
+    /repo 1a4271bf — digits were never compared with the base ("9" | from_radix(2) = 9) and the
+    empty string was 0.  Former known findings radix-digit-not-below-base / radix-empty-string. -/
+def fromRadixLegacyLSF (b : Nat) : List Char → Nat → Nat → Option Nat
+  | [], _, ans => some ans
+  | c :: cs, pow, ans =>
+    match radixVal c with
+    | none => none
+    | some d => fromRadixLegacyLSF b cs (pow * b) (ans + pow * d)
+
+def fromRadixLegacy (b : Nat) (s : List Char) : Option Nat := fromRadixLegacyLSF b s.reverse 1 0
 
 end FqModel.Codec
